@@ -93,6 +93,29 @@ for g in GROUPS:
     mk()
 
 
+for g_ in GROUPS:
+    def mk(g=g_):
+        @obligation(f'C05.{g}.batch_of_three', functions=[f'{OPS}:{g}_AdjXa.forward', f'{OPS}:{g}_AdjTXa.forward', f'{OPS}:{g}_Act.forward', f'{LT}:{g}Type.Adj', f'{LT}:{g}Type.AdjT'],
+                    max_paths=8, timeout=300)
+        def batch3(env):
+            """a batch whose size equals the vector dimension (3): Adj / AdjT / Act treat the batch axis as a batch axis - the result at
+            item i is the result of the unbatched call on item i (lshapes (3,), and (3,) against a single operand)"""
+            op = env.load(OPS); pp = env.load('pypose'); T = env.T
+            Xs = [group_elem(env, g, f'X{i}', qregimes=('generic',)) for i in range(3)]
+            As = [alg_elem(env, g, f'a{i}', regimes=('generic',)) for i in range(3)]
+            Ps = [env.vec(f'p{i}', 3, regimes=('generic',)) for i in range(3)]
+            XB, AB, PB = lie(pp, g, T.stack(Xs, 0)), alg(pp, g, T.stack(As, 0)), T.stack(Ps, 0)
+            one = lambda Z: lie(pp, g, Z)
+            for nm, full, item in (('Adj', lambda: XB.Adj(AB), lambda i: one(Xs[i]).Adj(alg(pp, g, As[i]))),
+                                   ('AdjT', lambda: XB.AdjT(AB), lambda i: one(Xs[i]).AdjT(alg(pp, g, As[i]))),
+                                   ('AdjT, single a', lambda: XB.AdjT(alg(pp, g, As[0])), lambda i: one(Xs[i]).AdjT(alg(pp, g, As[0]))),
+                                   ('AdjT, single X', lambda: one(Xs[0]).AdjT(AB), lambda i: one(Xs[0]).AdjT(alg(pp, g, As[i]))),
+                                   ('Act', lambda: XB.Act(PB), lambda i: one(Xs[i]).Act(Ps[i]))):
+                out = raw(full())
+                env.eq(f'{nm}: item i of the batched call is the unbatched call on item i', out, T.stack([raw(item(i)) for i in range(3)], 0))
+    mk()
+
+
 @obligation('C05.Jinvp_is_differential_of_Log', functions=[f'{OPS}:so3_Jl_inv', f'{OPS}:SO3_Log.forward', f'{OPS}:se3_Jl_inv', f'{OPS}:SE3_Log.forward'],
             max_paths=64, timeout=300)
 def jinvp_diff(env):
